@@ -1,5 +1,6 @@
 """C09 — Base58Check, Bech32/Bech32m, address <-> scriptPubKey mapping, WIF."""
 import hashlib
+from io import BytesIO
 
 from buidl import helper, bech32, script, tx, pecc
 from vp.sexp import ERR
@@ -14,11 +15,16 @@ RULE = ("Base58: every payload length 0..82 with every leading-zero run class (n
         "segwit: all witness versions 0..16 x all program lengths 2..40 x 4 networks (complete enumeration), "
         "every single substitution (31 alternatives plus non-alphabet characters) at every data position of sampled "
         "addresses, all 961 symbol pairs at sampled position pairs; addresses: 5 templates x 4 networks; "
-        "WIF: boundary and random secrets x compressed x network.")
+        "WIF: boundary and random secrets x compressed x network; converse direction (decode then encode) on valid, "
+        "non-canonical (non-zero / over-long padding, foreign version byte, odd payload length) and random texts; "
+        "RedeemScript/WitnessScript address entry points and ScriptPubKey.parse(bytes).address on the five templates, "
+        "near misses and malformed streams.")
 TRUSTED = ["hashlib (sha256) — hash256 is a universally quantified function with 32-byte output in the theorems",
            "text is modelled as a list of code points; harness inputs are latin-1 strings (one code point per byte)",
            "PrivateKey.__init__ computes secret*G, which is not modelled (only its range check is)"]
 ASSUMPTIONS = ["hash256 returns 32 bytes (hypothesis of the Base58Check theorems)",
+               "hash160 returns 20 bytes and sha256 returns 32 bytes (hypotheses of the RedeemScript / WitnessScript "
+               "address theorems; both are universally quantified functions)",
                "error-detection theorem: data part of at most 90 characters (explicit bound of the sweep)"]
 
 
@@ -48,6 +54,23 @@ def i_address(t, h, net):
     return _spk(t, h).address(NETS[net])
 
 
+def _quiet(f, *a):
+    """Script.parse prints a diagnostic on inexact parses; keep it out of the check's output"""
+    import contextlib
+    import io
+    with contextlib.redirect_stdout(io.StringIO()):
+        return f(*a)
+
+
+def _segwit_spk(cmds):
+    """a SegwitPubKey object (P2WPKH/P2WSH class, by the length of the program) holding exactly these commands"""
+    cmds = list(cmds)
+    h = cmds[1] if len(cmds) > 1 and isinstance(cmds[1], bytes) else b""
+    obj = (script.P2WSHScriptPubKey if len(h) == 32 else script.P2WPKHScriptPubKey)(h)
+    obj.commands = cmds
+    return obj
+
+
 def i_wif_encode(secret, mainnet, compressed):
     return pecc.PrivateKey(secret, network="mainnet" if mainnet else "testnet").wif(compressed=bool(compressed))
 
@@ -74,6 +97,13 @@ IMPL = {
     "to_address": lambda s: tx.TxOut.to_address(T(s), 1).script_pubkey.commands,
     "wif_encode": i_wif_encode,
     "wif_parse": i_wif_parse,
+    # other entry points (Model/AddressExt.v)
+    "redeem_address": lambda cmds, net: script.RedeemScript(list(cmds)).address(NETS[net]),
+    "segwit_p2sh_address": lambda cmds, net: _segwit_spk(cmds).p2sh_address(NETS[net]),
+    "witness_address": lambda cmds, net: script.WitnessScript(list(cmds)).address(NETS[net]),
+    "witness_p2sh_address": lambda cmds, net: script.WitnessScript(list(cmds)).p2sh_address(NETS[net]),
+    "spk_bytes_address": lambda s, net: _quiet(script.ScriptPubKey.parse, BytesIO(s)).address(NETS[net]),
+    "address_to_spk_bytes": lambda a: script.address_to_script_pubkey(T(a)).serialize(),
 }
 
 # ---------------------------------------------------------------- independent references
@@ -320,6 +350,145 @@ def p_wif_rt(secret, mainnet, compressed):
     return None
 
 
+# ---- converse direction: decode, then encode
+
+
+def _seg_canonical(a):
+    """the conditions of C09_segwit_decode_encode_canonical, computed from the text alone"""
+    for hrp in ("bcrt", "bc", "tb"):
+        if a.startswith(hrp + "1"):
+            d = a[len(hrp) + 1:]
+            break
+    else:
+        return False
+    if any(c not in B32 for c in d) or len(d) < 7:
+        return False
+    body = [B32.index(c) for c in d[1:-6]]
+    pad = (5 * len(body)) % 8
+    val = 0
+    for x in body:
+        val = val * 32 + x
+    return pad < 5 and val % (1 << pad) == 0
+
+
+def p_decode_encode(sb):
+    """whatever a decoder accepts re-encodes to the same text: always for Base58Check; for segwit texts that are
+    canonical (separator '1', fewer than 5 padding bits, all zero); for WIF payloads of 33/34 bytes"""
+    s = T(sb)
+    try:
+        raw = helper.raw_decode_base58(s)
+    except Exception:
+        raw = None
+    if raw is not None:
+        if helper.encode_base58_checksum(raw) != s:
+            return f"raw_decode_base58 accepts {s!r} but its payload encodes to {helper.encode_base58_checksum(raw)!r}"
+        try:
+            pk = pecc.PrivateKey.parse(s)
+        except Exception:
+            pk = None
+        if pk is not None and len(raw) in (33, 34):
+            if pk.compressed != (len(raw) == 34) or pk.wif(compressed=pk.compressed) != s:
+                return f"PrivateKey.parse accepts {s!r} but wif() of the result differs"
+    try:
+        net, ver, prog = bech32.decode_bech32(s)
+    except Exception:
+        return None
+    if not (net in ("mainnet", "testnet", "regtest") and 0 <= ver < 32 and 2 <= len(prog) <= 40):
+        return f"decode_bech32 returned values out of range: {(net, ver, len(prog))!r}"
+    if _seg_canonical(s):
+        back = bech32.encode_bech32_checksum(bytes([0x50 + ver if ver else 0, len(prog)]) + prog, net)
+        if back != s:
+            return f"decode_bech32 accepts the canonical text {s} but the result encodes to {back}"
+    return None
+
+
+def p_parsers_only_addresses(sb):
+    """KNOWN FINDING C09-parsers-accept-non-addresses when it fails: a text accepted by address_to_script_pubkey /
+    TxOut.to_address is the address of the returned scriptPubKey on some network"""
+    s = T(sb)
+    for name, f in (("address_to_script_pubkey", script.address_to_script_pubkey),
+                    ("TxOut.to_address", lambda x: tx.TxOut.to_address(x, 1).script_pubkey)):
+        try:
+            spk = f(s)
+        except Exception:
+            continue
+        if not (spk.is_p2pkh() or spk.is_p2sh() or spk.is_p2wpkh() or spk.is_p2wsh() or spk.is_p2tr()):
+            return f"{name} accepts {s!r} and returns the non-standard scriptPubKey {spk!r}"
+        addrs = []
+        for n in NETS[:4]:
+            try:
+                addrs.append(spk.address(n))
+            except Exception:
+                pass
+        if s not in addrs:
+            return f"{name} accepts {s!r} (-> {spk!r}) although the addresses of that script are {sorted(set(addrs))!r}"
+    return None
+
+
+def p_wif_only_wif(sb):
+    """KNOWN FINDING C09-wif-parse-any-length when it fails: a text accepted by PrivateKey.parse is a WIF text"""
+    s = T(sb)
+    try:
+        pk = pecc.PrivateKey.parse(s)
+    except Exception:
+        return None
+    if s not in (pk.wif(compressed=True), pk.wif(compressed=False)):
+        return f"PrivateKey.parse accepts {s!r} (secret {pk.secret}) which is neither wif(True) nor wif(False) of that key"
+    return None
+
+
+def h160(b):
+    return hashlib.new("ripemd160", hashlib.sha256(b).digest()).digest()
+
+
+def ref_ser(cmds):
+    out = b""
+    for c in cmds:
+        if isinstance(c, int):
+            out += bytes([c])
+        elif len(c) <= 75:
+            out += bytes([len(c)]) + c
+        elif len(c) < 256:
+            out += bytes([76, len(c)]) + c
+        else:
+            out += bytes([77]) + len(c).to_bytes(2, "little") + c
+    return out
+
+
+def p_script_entry_points(cmds, net):
+    """RedeemScript.address / WitnessScript.address / WitnessScript.p2sh_address equal the reference address of the
+    hash of the serialised script, and both parsers read them back as that P2SH / P2WSH scriptPubKey"""
+    cmds = list(cmds)
+    raw = ref_ser(cmds)
+    want = [("redeem", script.RedeemScript(cmds).address(NETS[net]), 1, h160(raw)),
+            ("witness", script.WitnessScript(cmds).address(NETS[net]), 3, hashlib.sha256(raw).digest()),
+            ("witness-p2sh", script.WitnessScript(cmds).p2sh_address(NETS[net]), 1,
+             h160(b"\x00\x20" + hashlib.sha256(raw).digest()))]
+    for name, addr, t, h in want:
+        if addr != ref_address(t, h, net):
+            return f"{name} address {addr} differs from the reference {ref_address(t, h, net)}"
+        if script.address_to_script_pubkey(addr).commands != spk_commands(t, h):
+            return f"address_to_script_pubkey does not give back the script of the {name} address"
+        if tx.TxOut.to_address(addr, 3).script_pubkey.commands != spk_commands(t, h):
+            return f"TxOut.to_address does not give back the script of the {name} address"
+    return None
+
+
+def p_spk_bytes_rt(t, h, net):
+    """serialised standard scriptPubKey -> ScriptPubKey.parse -> address -> address_to_script_pubkey -> serialize:
+    the same bytes, and the typed class is the template's"""
+    b = script.Script(spk_commands(t, h)).serialize()
+    obj = script.ScriptPubKey.parse(BytesIO(b))
+    if type(obj) is not SPK_CLS[t]:
+        return f"ScriptPubKey.parse built a {type(obj).__name__} for template {t}"
+    a = obj.address(NETS[net])
+    if a != ref_address(t, h, net):
+        return f"address {a} differs from the reference {ref_address(t, h, net)}"
+    if script.address_to_script_pubkey(a).serialize() != b:
+        return "address_to_script_pubkey(address).serialize() differs from the original bytes"
+    return None
+
+
 # ---------------------------------------------------------------- histories: one object / one module, many calls
 # Every step of a session is compared with the stateless references above, so a result that depends on an EARLIER
 # call (a memo on a script or key object, a module-level cache keyed too coarsely, a value computed once in a
@@ -497,7 +666,18 @@ def p_history(ops):
     return None
 
 
-PROPS = {"b58_rt": p_b58_rt, "b58_accept_iff": p_b58_accept_iff, "segwit_rt": p_segwit_rt,
+def classify(v):
+    if v["kind"] == "prop" and v["name"] == "parsers_only_addresses":
+        return "C09-parsers-accept-non-addresses"
+    if v["kind"] == "prop" and v["name"] == "wif_only_wif":
+        return "C09-wif-parse-any-length"
+    return None
+
+
+PROPS = {"decode_encode": p_decode_encode, "parsers_only_addresses": p_parsers_only_addresses,
+         "wif_only_wif": p_wif_only_wif, "script_entry_points": p_script_entry_points,
+         "spk_bytes_rt": p_spk_bytes_rt,
+         "b58_rt": p_b58_rt, "b58_accept_iff": p_b58_accept_iff, "segwit_rt": p_segwit_rt,
          "segwit_sub1": p_segwit_sub1, "segwit_sub2": p_segwit_sub2, "group32": p_group32,
          "spk_addr": p_spk_addr, "to_address": p_to_address, "addr_distinct": p_addr_distinct, "wif_rt": p_wif_rt,
          "history": p_history}
@@ -692,6 +872,186 @@ def _interleave(r, parts):
         parts = [q for q in parts if q]
     return out
 
+
+# ---------------------------------------------------------------- converse direction / other entry points
+
+WITNESS_TEXTS = ["tb1qrp33g0q5c5txsp9arysrx4k6zdkfs4nce4xj0gdcccefvpysxf3q0sl5k7",      # BIP173 valid
+                 "tb1qrp33g0q5c5txsp9arysrx4k6zdkfs4nce4xj0gdcccefvpysxf3pjxtptv",      # BIP173 invalid: non-zero padding
+                 "bc1qqqqsyqcyq5rqwzqfpg9scrgwpugpzysn4v0345",
+                 "bc1qqqqsyqcyq5rqwzqfpg9scrgwpugpzysnqtj07j6",                          # 5 padding bits
+                 "bcrt1qqqqsyqcyq5rqwzqfpg9scrgwpugpzysnard0ew",
+                 "bcrtxqqqqsyqcyq5rqwzqfpg9scrgwpugpzysnard0ew",                         # separator never looked at
+                 "bc1qqqqsyqcyq5rqwzqfpg9scrgwpugpzysnzsf6edgu",                         # v0, 21-byte program, 44 chars
+                 "bc1zw508d6qejxtdg4y5r3zarvaryvqyzf3du", "bc1qr508d6qejxtdg4y5r3zarvaryv98gj9p",
+                 "BC1SW50QA3JX3S", "bc1sw50qa3jx3s", "bc1rw5uspcuh",
+                 "bc1p0xlxvlhemja6c4dqv22uapctqupfhlxm9h8z3k2e72q4k9hcz7vqzk5jj0",      # BIP350 valid P2TR
+                 "bc1p0xlxvlhemja6c4dqv22uapctqupfhlxm9h8z3k2e72q4k9hcz7vqh2y7hd"]      # BIP350 invalid (bech32 constant)
+
+
+def seg_text(hrp, data, const=None, sep="1"):
+    """text with a correct checksum for arbitrary symbols (version symbol first)"""
+    if const is None:
+        const = 1 if data[0] == 0 else 0x2bc830a3
+    pm = ref_polymod(ref_hrp(hrp) + data + [0] * 6) ^ const
+    return hrp + sep + "".join(B32[d] for d in data + [(pm >> 5 * (5 - i)) & 31 for i in range(6)])
+
+
+def noncanonical_texts(ctx, ver, prog, net):
+    """valid-checksum variants of one address: (label, text)"""
+    r = ctx.rng
+    hrp = HRP[net]
+    body = ref_conv(prog, 8, 5, True)
+    pad = 5 * len(body) - 8 * len(prog)
+    out = [("canonical", seg_text(hrp, [ver] + body))]
+    if pad:
+        nz = list(body)
+        nz[-1] |= r.randrange(1, 1 << pad)
+        out.append(("nonzero-padding", seg_text(hrp, [ver] + nz)))
+    out.append(("long-padding", seg_text(hrp, [ver] + body + [0])))
+    out.append(("long-nonzero-padding", seg_text(hrp, [ver] + body + [r.randrange(1, 32)])))
+    out.append(("version-17..31", seg_text(hrp, [r.randrange(17, 32)] + body)))
+    if hrp == "bcrt":
+        out.append(("regtest-separator", seg_text(hrp, [ver] + body, sep=r.choice("xq0/2"))))
+    out.append(("other-constant", seg_text(hrp, [ver] + body, const=(0x2bc830a3 if ver == 0 else 1))))
+    return out
+
+
+def converse_cases(ctx, strings, addrs):
+    r = ctx.rng
+    for s in r.sample(strings, ctx.n(60, 400)):
+        ctx.label("converse/base58-valid")
+        yield ("prop", "decode_encode", [s])
+        p = r.randrange(len(s))
+        yield ("prop", "decode_encode", [s[:p] + bytes([r.choice(B58.encode())]) + s[p + 1:]])
+    for a in WITNESS_TEXTS:
+        ctx.label("converse/witness-texts")
+        b = a.encode()
+        yield ("corr", "decode_bech32", [b])
+        yield ("corr", "address_to_script_pubkey", [b])
+        yield ("corr", "to_address", [b])
+        yield ("corr", "address_to_spk_bytes", [b])
+        yield ("prop", "decode_encode", [b])
+        yield ("prop", "parsers_only_addresses", [b])
+    cases = r.sample(addrs, ctx.n(40, 600))
+    cases += [(v, ctx.rbytes(ln), net, None) for v in (0, 1) for ln in (20, 32, 21, 31, 33, 18) for net in (0, 1, 3)]
+    for (ver, prog, net, _) in cases:
+        for label, a in noncanonical_texts(ctx, ver, prog, net):
+            ctx.label("converse/segwit-" + label)
+            b = a.encode()
+            yield ("corr", "decode_bech32", [b])
+            yield ("prop", "decode_encode", [b])
+            if ver in (0, 1):
+                yield ("corr", "address_to_script_pubkey", [b])
+                yield ("corr", "to_address", [b])
+                yield ("prop", "parsers_only_addresses", [b])
+    # Base58Check texts with foreign version bytes / odd hash lengths
+    for _ in range(ctx.n(40, 600)):
+        ver = r.choice([0x00, 0x05, 0x6f, 0xc4, 0x70, 0x71, 0x6e, 0x6d, 0xc3, 0xc5, 4, 6, 1, r.randrange(256)])
+        h = ctx.rbytes(r.choice([20, 20, 20, 19, 21, 0, 32]))
+        raw = bytes([ver]) + h
+        a = ref_b58enc(raw + h256(raw)[:4]).encode()
+        ctx.label("converse/base58-version-%s" % ("standard" if ver in (0, 5, 0x6f, 0xc4) else "foreign"))
+        yield ("corr", "address_to_script_pubkey", [a])
+        yield ("corr", "to_address", [a])
+        yield ("corr", "address_to_spk_bytes", [a])
+        yield ("prop", "decode_encode", [a])
+        yield ("prop", "parsers_only_addresses", [a])
+    # WIF-shaped texts: payload lengths around 33/34
+    for _ in range(ctx.n(40, 600)):
+        pre = r.choice([0x80, 0xef, 0x80, 0xef, 0x81])
+        ln = r.choice([1, 2, 31, 32, 32, 33, 33, 34, 40])
+        body = ctx.rbytes(ln) if r.random() < 0.7 else bytes(ln - 1) + b"\x01"
+        if ln == 33 and r.random() < 0.6:
+            body = body[:-1] + b"\x01"
+        raw = bytes([pre]) + body
+        w = ref_b58enc(raw + h256(raw)[:4]).encode()
+        ctx.label("converse/wif-payload-%d" % len(raw))
+        yield ("corr", "wif_parse", [w])
+        yield ("prop", "decode_encode", [w])
+        yield ("prop", "wif_only_wif", [w])
+
+
+OPS = [0, 0x51, 0x52, 0x53, 0x60, 0x76, 0xa9, 0x87, 0x88, 0xac, 0xae, 0xb1, 0x6a, 0x4f, 0xff]
+
+
+def random_script(ctx, valid=True):
+    r = ctx.rng
+    k = r.random()
+    pk = lambda: bytes([r.choice([2, 3])]) + ctx.rbytes(32)
+    if k < 0.25:
+        n = r.randrange(1, 4)
+        return [0x50 + r.randrange(1, n + 1)] + [pk() for _ in range(n)] + [0x50 + n, 0xae]
+    if k < 0.35:
+        return [pk(), 0xac]
+    cmds = []
+    for _ in range(r.randrange(0, 7)):
+        if r.random() < 0.5:
+            cmds.append(r.choice(OPS))
+        else:
+            cmds.append(ctx.rbytes(r.choice([1, 2, 20, 32, 33, 65, 75, 76, 255, 256, 520])))
+    if not valid:
+        cmds.insert(r.randrange(len(cmds) + 1), r.choice([256, -1, 1000, ctx.rbytes(521)]))
+    return cmds
+
+
+def entry_point_cases(ctx):
+    r = ctx.rng
+    for i in range(ctx.n(40, 600)):
+        valid = r.random() < 0.85
+        cmds = random_script(ctx, valid)
+        net = r.choice([0, 1, 2, 3, 0, 3, 4])
+        ctx.label("entry/script-%s" % ("valid" if valid else "unserialisable"))
+        yield ("corr", "redeem_address", [cmds, net])
+        yield ("corr", "witness_address", [cmds, net])
+        yield ("corr", "witness_p2sh_address", [cmds, net])
+        if valid and net < 4:
+            yield ("prop", "script_entry_points", [cmds, net])
+    for net in range(5):
+        for h in (ctx.rbytes(20), ctx.rbytes(32), bytes(20), ctx.rbytes(21)):
+            ctx.label("entry/segwit-p2sh")
+            yield ("corr", "segwit_p2sh_address", [[0, h], net])
+    # ScriptPubKey.parse(bytes).address(network)
+    for t in range(5):
+        for net in range(5):
+            for i in range(ctx.n(3, 40)):
+                ln = 20 if t < 3 else 32
+                h = ctx.rbytes(ln) if i else bytes(ln)
+                cmds = spk_commands(t, h)
+                b = ref_ser(cmds)
+                b = bytes([len(b)]) + b
+                ctx.label("entry/spk-bytes-" + ["p2pkh", "p2sh", "p2wpkh", "p2wsh", "p2tr"][t])
+                yield ("corr", "spk_bytes_address", [b, net])
+                if net < 4:
+                    yield ("prop", "spk_bytes_rt", [t, h, net])
+                    a = ref_address(t, h, net).encode()
+                    yield ("corr", "address_to_spk_bytes", [a])
+                    p = r.randrange(len(a))
+                    yield ("corr", "address_to_spk_bytes", [a[:p] + bytes([r.choice(B32.encode() if t >= 2 else B58.encode())]) + a[p + 1:]])
+                if i == 0:
+                    # near misses: not one of the templates -> plain ScriptPubKey, which has no address()
+                    hpos = SPK_HPOS[t]
+                    miss = []
+                    for hh in (h[:-1], h + b"\x00", b""):
+                        c = list(cmds)
+                        c[hpos] = hh
+                        miss.append(ref_ser(c))
+                    c = list(cmds)
+                    c[0] = (c[0] + 1) % 256
+                    miss.append(ref_ser(c))
+                    miss.append(ref_ser(cmds + [0x51]))
+                    miss.append(ref_ser(cmds[:-1]))
+                    # the same commands with a non-minimal push (OP_PUSHDATA1): still recognised
+                    miss.append(b"".join(bytes([c]) if isinstance(c, int) else bytes([76, len(c)]) + c for c in cmds))
+                    for m in miss:
+                        ctx.label("entry/spk-bytes-near-miss")
+                        yield ("corr", "spk_bytes_address", [bytes([len(m)]) + m, net])
+                    for k in range(len(b)):
+                        ctx.label("entry/spk-bytes-truncated")
+                        yield ("corr", "spk_bytes_address", [b[:k], net])
+                    yield ("corr", "spk_bytes_address", [bytes([len(b) + 3]) + b[1:], net])       # declared length too long
+                    yield ("corr", "spk_bytes_address", [bytes([max(0, len(b) - 3)]) + b[1:], net])  # ... too short
+    for s in (b"", b"\x00", b"\x01\x51", b"\xfd\x00", b"\xff"):
+        yield ("corr", "spk_bytes_address", [s, 0])
 
 
 def generate(ctx):
@@ -914,5 +1274,8 @@ def generate(ctx):
         raw = (bytes([pre]) + body) if r.random() < 0.95 else b""
         ctx.label("wif/odd-payload")
         yield ("corr", "wif_parse", [ref_b58enc(raw + h256(raw)[:4]).encode()])
+    # ---------------- converse direction (decode then encode), non-canonical texts, other entry points
+    yield from converse_cases(ctx, strings, addrs)
+    yield from entry_point_cases(ctx)
     # ---------------- histories (state kept across calls on one object / in the module)
     yield from histories(ctx)
